@@ -591,7 +591,11 @@ def gen_graph_cases(ctx):
                 else:
                     use = [perms[rng.randrange(len(perms))]]
                 for pi, p in enumerate(use):
-                    for fmt in FMTS[cls]:
+                    fmts = FMTS[cls]
+                    if n == 3 and tier != "thorough":      # quick: two formats per 3-node graph, rotating
+                        r = rng.randrange(len(fmts))
+                        fmts = [fmts[r], fmts[(r + 1) % len(fmts)]]
+                    for fmt in fmts:
                         i += 1
                         h = dict(g, N=list(p))
                         yield {"kind": "graph", "cls": cls, "fmt": fmt, "g": h, "src": "exh%d" % n,
@@ -738,7 +742,7 @@ def run(ctx):
     ev.rule = ("graph cases: every graph of ADMG/CPDAG/PAG on 1-3 nodes over the per-pair configurations the class admits "
                "(ADMG: ->,<-,<->,--, and every two-type combination; CPDAG: ->,<-,--; PAG: ->,<-,<->,--,o-o,o->,<-o,--o,o--; "
                "directed layer acyclic) x insertion orders (all for n<=2, one random order for n=3 in quick, all in thorough) x every format "
-               "of the class; random graphs n=4..6 with DAG-ordered directed layer, shuffled insertion order, 4 label "
+               "of the class (quick: two rotating formats per 3-node graph); random graphs n=4..6 with DAG-ordered directed layer, shuffled insertion order, 4 label "
                "families, int/float dtype, class given as string or type. Each case checks export against the documented "
                "matrix (Lean spec table), import(export(G)), import(documented matrix) and re-export; Tetrad through a file "
                "in a mkdtemp directory, plus a harness-written well-formed file with flipped/rotated lines. ts: every set of "
